@@ -6,7 +6,15 @@ moment matching; counterexample at the code's 0.1835 threshold), C03b.lean (stat
 curve df for HW by the closed-form alpha, for BK/BDT from the root-search postcondition; BDT as coded does
 not fit — counterexample), C03c.lean (backward induction: the state-price pairing is invariant, hence zero
 and coupon bonds price to the curve; monotone operator ⇒ american ≥ european ≥ 0, callable ≤ pure ≤ puttable).
-Correspondence: module-level njit builders / backward kernels vs the hand model (Driver/C03) element-wise.
+C03d.lean (the pieces of build_tree_fast and of the six trinomial roll-back routines that the translator generates from
+the source — probability formulas, j_max argument, forward targets, kN/kN+-1/kN+-2 read pattern, node formulas — are
+the hand model; what the j_max = ceil(0.1835/(a dt)) rule implies at every node: all probabilities in [0,1] iff
+(1 - a j_max dt)^2 <= 2/3), C03e.lean (HW/BK/BDT over all steps by induction; BK bonds within tol; BK root unique;
+BDT pairing, bonds, ordering, ladder, level 1; generated BDT pieces = model), C03f.lean (the arrays as stored —
+written on -nm..nm, zero elsewhere — equal the model on the written nodes; linearity, European = state-price-weighted
+payoff, parity, american >= intrinsic, no-schedule = pure).
+Correspondence: module-level njit builders / backward kernels vs the hand model (Driver/C03) element-wise; the
+translator ties Gen/TreesR.lean to the source text on every run.
 Direct oracles on the implementation: see ORACLES below; they run on every check.  They include the re-use
 oracle: a model / product object used on curve A and then on curve B must equal fresh objects on curve B."""
 import json
@@ -18,8 +26,9 @@ sys.path.insert(0, os.path.dirname(os.path.dirname(os.path.abspath(__file__))))
 import common as C  # noqa: E402
 from floatcmp import f2b, b2f, close  # noqa: E402
 
-GEN = []
-PROPS = ['FinVerif.Props.C03a', 'FinVerif.Props.C03b', 'FinVerif.Props.C03c']
+GEN = ['TreesR']     # tools/py2lean/registry/trees.py: the straight-line pieces of the builders / roll-back routines
+PROPS = ['FinVerif.Props.C03a', 'FinVerif.Props.C03b', 'FinVerif.Props.C03c',
+         'FinVerif.Props.C03d', 'FinVerif.Props.C03e', 'FinVerif.Props.C03f']
 DRIVERS = ['FinVerif.Driver.C03']
 EXTRA_FILES = ['FinVerif/Model/C03.lean', 'FinVerif/Lemmas/C03Sum.lean', 'FinVerif/Spec/C03.lean']
 
@@ -592,8 +601,114 @@ def oracle_reuse_product(np, case, A=None):
     return out, None
 
 
+F_BKNEWTON = 'C03/bk-newton-overshoot'
+
+
+def grid_df_decreasing(df):
+    return all(float(df[i + 1]) < float(df[i]) for i in range(len(df) - 1))
+
+
+def bk_newton_overshoot(np, a, sigma, tt, n, df):
+    """Classifier of C03/bk-newton-overshoot, computed from the inputs of bk_tree.build_tree_fast alone.
+
+    True only if all of: (0) the curve is admissible for BK (df strictly decreasing on the tree grid); (1) there is a first
+    step m* at which build_tree_fast raises FinError while all earlier steps calibrate (found by re-running the builder on
+    the curve continued flat after step m); (2) at m* the fitting equation f(alpha) = 0 *has* a root alpha* (bisection on the
+    library's own objective bk_tree.f reaches |f| <= 1e-9); (3) the library's search bk_tree.search_root_deriv started, as
+    build_tree_fast does, from the previous step's alpha raises FinError; (4) that start lies below the root (f > 0) and the
+    first full Newton step lands more than 1 above the root — the overshoot.  Returns a dict describing m*, or None."""
+    from financepy.models import bk_tree
+    from financepy.utils.error import FinError
+    df = np.array(df, dtype=float)
+    tt = np.array(tt, dtype=float)
+    if not grid_df_decreasing(df):
+        return None
+
+    def flat_after(m):
+        d = df.copy()
+        ratio = df[m + 1] / df[m]
+        for i in range(m + 2, len(d)):
+            d[i] = d[i - 1] * ratio
+        return d
+
+    def builds(m):
+        try:
+            return bk_tree.build_tree_fast(a, sigma, tt, n, flat_after(m))
+        except (FinError, ZeroDivisionError):
+            return None
+    if builds(n) is not None:            # flat_after(n) == df
+        return None
+    lo, hi = 0, n                        # builds(lo) ok (step 0 starts at its root), builds(hi) fails
+    if builds(0) is None:
+        return None
+    while hi - lo > 1:
+        mid = (lo + hi) // 2
+        if builds(mid) is None:
+            hi = mid
+        else:
+            lo = mid
+    mstar = hi
+    Q, pu, pm, pd, rt, dt = builds(mstar - 1)
+    J = (len(pu) - 1) // 2
+    nm = min(mstar, J)
+    dX = sigma * math.sqrt(3.0 * dt)
+    x0 = math.log(rt[mstar - 1, J])
+    P = float(df[mstar + 1])
+    row = np.ascontiguousarray(Q[mstar])
+    f0 = bk_tree.f(x0, nm, row, P, dX, dt, J)
+    blo, bhi = -120.0, 12.0
+    if not (bk_tree.f(blo, nm, row, P, dX, dt, J) > 0.0 > bk_tree.f(bhi, nm, row, P, dX, dt, J)):
+        return None
+    for _ in range(200):
+        bm = 0.5 * (blo + bhi)
+        if bk_tree.f(bm, nm, row, P, dX, dt, J) > 0.0:
+            blo = bm
+        else:
+            bhi = bm
+    astar = 0.5 * (blo + bhi)
+    if abs(bk_tree.f(astar, nm, row, P, dX, dt, J)) > 1e-9:
+        return None
+    try:
+        bk_tree.search_root_deriv(x0, nm, row, P, dX, dt, J)
+        return None
+    except FinError as e:
+        msg = str(e)
+    fp0 = bk_tree.fprime(x0, nm, row, P, dX, dt, J)
+    if not (f0 > 0.0 and fp0 < 0.0):
+        return None
+    x1 = x0 - f0 / fp0
+    if not x1 - astar > 1.0:
+        return None
+    fw = -np.log(df[1:] / df[:-1]) / dt
+    return {'step': int(mstar), 'start_alpha': x0, 'root_alpha': astar, 'first_newton_iterate': x1, 'library_error': msg,
+            'fwd_prev': float(fw[mstar - 1]), 'fwd_step': float(fw[mstar])}
+
+
+def oracle_build(np, case, A=None):
+    """clause `builds`: the tree builder must not raise on an admissible curve.  For BK, curves whose df does not decrease on
+    the tree grid are outside the domain (no fitted tree exists, bk_no_root_of_df_not_decreasing): a FinError there passes."""
+    from financepy.utils.error import FinError
+    out = Fails()
+    try:
+        build_arrays(np, case)
+    except (FinError, ZeroDivisionError) as e:
+        tt, df, _, _ = tree_inputs(np, case)
+        if case['kind'] == 'bk':
+            if not grid_df_decreasing(df):
+                return out, None
+            cl = bk_newton_overshoot(np, case['a'], case['sigma'], tt, case['n'], df)
+            if cl is not None:
+                out.add('builds', f'bk build_tree_fast raised {type(e).__name__}: {e} although step {cl["step"]} has the root '
+                                  f'alpha = {cl["root_alpha"]:.6f} (Newton from {cl["start_alpha"]:.4f} jumps to '
+                                  f'{cl["first_newton_iterate"]:.2f})', F_BKNEWTON, **cl)
+                return out, None
+        out.add('builds', f'{case["kind"]} build_tree_fast raised {type(e).__name__}: {e}', None, error=str(e))
+    return out, None
+
+
 ORACLES = {'tree': oracle_tree, 'bond': oracle_bond, 'option': oracle_option, 'reuse': oracle_reuse,
-           'reuseprod': oracle_reuse_product}
+           'reuseprod': oracle_reuse_product, 'product': lambda np, case, A=None: oracle_product(np, case, A),
+           'build': oracle_build}
 
 
 def report(ctx, comp, case, fails):
@@ -666,8 +781,54 @@ def gen_option_on(rng, case, A, np):
 
 
 # ------------------------------------------------------------------------------------------ product level
-def product_cases(ctx, rng, np):
-    """BondEmbeddedOption / BondOption / IborBermudanSwaption through their public value() methods."""
+def _d3(d):
+    return [int(d.d), int(d.m), int(d.y)]
+
+
+def gen_product_case(rng):
+    """One product-level world, as plain data (everything `oracle_product` needs; replayable): curve knots and dfs,
+    valuation date, bond (issue, maturity, coupon, frequency), tree steps, model parameters (HW sigma/a, lognormal
+    sigma for BK/BDT), embedded-option dates and level, bond-option expiry and strike, swaption dates and fixed rate."""
+    from financepy.utils.date import Date
+    from financepy.utils.frequency import FrequencyTypes
+    from financepy.utils.day_count import DayCountTypes
+    from financepy.products.bonds.bond import Bond
+    shape = rng.choice(['up', 'inv', 'hump', 'flat', 'steep'])
+    times, dfs = make_curve(rng, shape)
+    vd = Date(rng.randint(1, 28), rng.randint(1, 12), rng.randint(2015, 2030))
+    matyears = rng.choice([3, 5, 8, 12])
+    issue = vd.add_months(-rng.randint(1, 5))
+    mat = issue.add_years(matyears)
+    cpn = rng.choice([0.02, 0.04, 0.06])
+    freq = rng.choice([FrequencyTypes.ANNUAL, FrequencyTypes.SEMI_ANNUAL])
+    n = rng.choice([20, 40, 60])
+    sig_hw, a = rng.choice([0.005, 0.01, 0.02]), rng.choice([0.05, 0.1, 0.3])
+    sig_ln = rng.choice([0.1, 0.2, 0.3])
+    pc = {'shape': shape, 'times': times, 'dfs': dfs, 'value_dt': _d3(vd), 'issue': _d3(issue), 'maturity': _d3(mat),
+          'coupon': cpn, 'freq': freq.name, 'n': n, 'sigma_hw': sig_hw, 'a': a, 'sigma_ln': sig_ln,
+          'emb': None, 'bo': None}
+    bond = Bond(issue, mat, cpn, freq, DayCountTypes.ACT_ACT_ICMA)
+    cdts = [d for d in bond.cpn_dts[1:-1] if d > vd.add_months(7)]
+    if cdts:
+        sel = sorted(rng.sample(range(len(cdts)), min(len(cdts), rng.randint(1, 4))))
+        pc['emb'] = {'option_dts': [_d3(cdts[i]) for i in sel], 'level': rng.choice([98.0, 100.0, 103.0])}
+    cd = [d for d in bond.cpn_dts if d > vd.add_months(3)]
+    if len(cd) >= 3:
+        i = rng.randrange(0, len(cd) - 2)
+        gap = cd[i + 1] - cd[i]
+        exp = cd[i].add_days(int(gap * rng.uniform(0.35, 0.65)))
+        pc['bo'] = {'expiry': _d3(exp), 'strike': rng.choice([90.0, 100.0, 108.0])}
+    ex_dt = vd.add_years(rng.choice([1, 2]))
+    sw_mat = ex_dt.add_years(rng.choice([2, 3, 5]))
+    pc['sw'] = {'exercise': _d3(ex_dt), 'maturity': _d3(sw_mat), 'fixed': rng.choice([0.02, 0.04, 0.06])}
+    return pc
+
+
+def oracle_product(np, pc, A=None):
+    """BondEmbeddedOption (HW, BK), BondOption and IborBermudanSwaption (HW, BK, BDT) through their public value()
+    methods on the world `pc`.  Every (product, model) pair is valued on its own, so one failure does not hide the others;
+    an exception is a failure of that pair and is reported with the full inputs."""
+    import traceback
     from financepy.utils.date import Date
     from financepy.utils.frequency import FrequencyTypes
     from financepy.utils.day_count import DayCountTypes
@@ -680,120 +841,139 @@ def product_cases(ctx, rng, np):
     from financepy.models.hw_tree import HWTree
     from financepy.models.bk_tree import BKTree
     from financepy.models.bdt_tree import BDTTree
+    from financepy.utils.error import FinError
+    out = Fails()
+    stats = {'BondEmbeddedOption': 0, 'BondOption': 0, 'IborBermudanSwaption': 0, 'samples': {}, 'inadmissible': []}
+    D = lambda t: Date(t[0], t[1], t[2])  # noqa: E731
+    times, dfs = pc['times'], pc['dfs']
+    vd, issue, mat = D(pc['value_dt']), D(pc['issue']), D(pc['maturity'])
+    kdates = [vd.add_days(int(round(t * 365))) for t in times[1:]]
+    curve = DiscountCurve(vd, kdates, np.array(dfs[1:]))
+    tk, dk = curve._times, curve._dfs
+    cpn, freq, n = pc['coupon'], FrequencyTypes[pc['freq']], pc['n']
+    bond = Bond(issue, mat, cpn, freq, DayCountTypes.ACT_ACT_ICMA)
 
-    nprod = 30 if ctx.quick() else 150
-    for it in range(nprod):
+    def model(kind):
+        last['model'] = {'hw': lambda: HWTree(pc['sigma_hw'], pc['a'], n), 'bk': lambda: BKTree(pc['sigma_ln'], pc['a'], n),
+                         'bdt': lambda: BDTTree(pc['sigma_ln'], n)}[kind]()
+        return last['model']
+
+    last = {}
+
+    def guarded(component, kind, fn, t_mat):
         try:
-            product_case(ctx, rng, np)
+            fn()
         except Exception as e:  # noqa: BLE001 - the inputs are tame; an exception is a failure of the product
-            import traceback
             tb = traceback.extract_tb(e.__traceback__)[-1]
-            ctx.violation(f'product valuation raised {type(e).__name__}: {e} at {os.path.basename(tb.filename)}:{tb.lineno}',
-                          {'component': 'product', 'seed_stream': 'products', 'iteration': it}, clause='raises')
+            where = f'{os.path.basename(tb.filename)}:{tb.lineno}'
+            fid, extra = None, {}
+            m_ = last.get('model')
+            if kind == 'bk' and isinstance(e, FinError) and os.path.basename(tb.filename) == 'bk_tree.py' \
+                    and m_ is not None and getattr(m_, 'tree_times', None) is not None:
+                # the grid and curve of the build that failed, as BKTree.build_tree stored them before calling the builder
+                tt_ = np.array(m_.tree_times, dtype=float)
+                df_ = np.array([1.0] + [curve_df(t, m_.df_times, m_.dfs) for t in tt_[1:]])
+                if not grid_df_decreasing(df_):
+                    # outside the property's quantifier for BK (no fitted tree exists): the library's error is correct
+                    stats['inadmissible'].append(f'{component}[bk]: curve df not decreasing on the tree grid to {tt_[-2]:.3f}y')
+                    return
+                cl = bk_newton_overshoot(np, pc['a'], pc['sigma_ln'], tt_, n, df_)
+                if cl is not None:
+                    fid, extra = F_BKNEWTON, cl
+            out.add('raises', f'{component}[{kind}] valuation raised {type(e).__name__}: {e} at {where}', fid,
+                    product=component, kind=kind, error=type(e).__name__, message=str(e), where=where, **extra)
 
-
-def product_case(ctx, rng, np):
-    from financepy.utils.date import Date
-    from financepy.utils.frequency import FrequencyTypes
-    from financepy.utils.day_count import DayCountTypes
-    from financepy.utils.global_types import OptionTypes, FinExerciseTypes, SwapTypes
-    from financepy.market.curves.discount_curve import DiscountCurve
-    from financepy.products.bonds.bond import Bond
-    from financepy.products.bonds.bond_option import BondOption
-    from financepy.products.bonds.bond_callable import BondEmbeddedOption
-    from financepy.products.rates.ibor_bermudan_swaption import IborBermudanSwaption
-    from financepy.models.hw_tree import HWTree
-    from financepy.models.bk_tree import BKTree
-    from financepy.models.bdt_tree import BDTTree
-    if True:
-        shape = rng.choice(['up', 'inv', 'hump', 'flat', 'steep'])
-        times, dfs = make_curve(rng, shape)
-        vd = Date(rng.randint(1, 28), rng.randint(1, 12), rng.randint(2015, 2030))
-        kdates = [vd.add_days(int(round(t * 365))) for t in times[1:]]
-        curve = DiscountCurve(vd, kdates, np.array(dfs[1:]))
-        tk, dk = curve._times, curve._dfs
-        matyears = rng.choice([3, 5, 8, 12])
-        issue = vd.add_months(-rng.randint(1, 5))
-        mat = issue.add_years(matyears)
-        cpn = rng.choice([0.02, 0.04, 0.06])
-        freq = rng.choice([FrequencyTypes.ANNUAL, FrequencyTypes.SEMI_ANNUAL])
-        n = rng.choice([20, 40, 60])
-        sig_hw, a = rng.choice([0.005, 0.01, 0.02]), rng.choice([0.05, 0.1, 0.3])
-        sig_ln = rng.choice([0.1, 0.2, 0.3])
-        base = {'shape': shape, 'value_dt': str(vd), 'issue': str(issue), 'maturity': str(mat), 'coupon': cpn,
-                'freq': freq.name, 'n': n, 'sigma_hw': sig_hw, 'a': a, 'sigma_ln': sig_ln, 'times': times, 'dfs': dfs}
-
-        def models():
-            return [('hw', HWTree(sig_hw, a, n)), ('bk', BKTree(sig_ln, a, n)), ('bdt', BDTTree(sig_ln, n))]
-
-        # --- embedded options (HW, BK): callable <= pure <= puttable; pure = curve PV
-        bond = Bond(issue, mat, cpn, freq, DayCountTypes.ACT_ACT_ICMA)
-        cdts = [d for d in bond.cpn_dts[1:-1] if d > vd.add_months(7)]
-        if cdts:
-            sel = sorted(rng.sample(range(len(cdts)), min(len(cdts), rng.randint(1, 4))))
-            odts = [cdts[i] for i in sel]
-            lvl = rng.choice([98.0, 100.0, 103.0])
-            for kind, model in models()[:2]:
+    # --- embedded options (HW, BK): callable <= pure <= puttable; pure = curve PV
+    if pc.get('emb'):
+        odts = [D(t) for t in pc['emb']['option_dts']]
+        lvl = pc['emb']['level']
+        for kind in ('hw', 'bk'):
+            def emb(kind=kind):
+                m_ = model(kind)
                 cb = BondEmbeddedOption(issue, mat, cpn, freq, DayCountTypes.ACT_ACT_ICMA, odts, [lvl] * len(odts), [], [])
                 pb = BondEmbeddedOption(issue, mat, cpn, freq, DayCountTypes.ACT_ACT_ICMA, [], [], odts, [lvl] * len(odts))
-                vc = cb.value(vd, curve, model)
-                vp = pb.value(vd, curve, model)
+                vc = cb.value(vd, curve, m_)
+                vp = pb.value(vd, curve, m_)
                 pure = float(vc['bondpure'])
                 f_ = float(annual(freq))
                 pv = 100.0 * (sum(cpn / f_ * curve_df((d - vd) / 365.0, tk, dk) for d in bond.cpn_dts[1:] if d > vd)
                               + curve_df((mat - vd) / 365.0, tk, dk))
-                case = dict(base, kind=kind, component='BondEmbeddedOption', option_dts=[str(d) for d in odts], level=lvl)
+                det = dict(product='BondEmbeddedOption', kind=kind)
                 tol = 1e-9 * 200 if kind == 'hw' else 5e-6
                 if abs(pure - pv) > tol:
-                    ctx.violation(f'BondEmbeddedOption[{kind}] bondpure {pure!r} != curve PV {pv!r}', case, clause='bondpure-vs-curve')
+                    out.add('bondpure-vs-curve', f'BondEmbeddedOption[{kind}] bondpure {pure!r} != curve PV {pv!r}', **det)
                 if float(vc['bondwithoption']) > pure + 1e-8:
-                    ctx.violation(f'BondEmbeddedOption[{kind}] callable {vc["bondwithoption"]!r} > option-free {pure!r}', case,
-                                  clause='callable-le-pure')
+                    out.add('callable-le-pure', f'BondEmbeddedOption[{kind}] callable {vc["bondwithoption"]!r} > option-free {pure!r}', **det)
                 if float(vp['bondwithoption']) < float(vp['bondpure']) - 1e-8:
-                    ctx.violation(f'BondEmbeddedOption[{kind}] puttable {vp["bondwithoption"]!r} < option-free {vp["bondpure"]!r}', case,
-                                  clause='pure-le-puttable')
-                ctx.count('product/BondEmbeddedOption', 2, 2, sample={k: case[k] for k in ('kind', 'shape', 'maturity', 'coupon', 'level')})
-        # --- bond options: american >= european >= 0, expiry strictly between coupon dates
-        cd = [d for d in bond.cpn_dts if d > vd.add_months(3)]
-        if len(cd) >= 3:
-            i = rng.randrange(0, len(cd) - 2)
-            gap = cd[i + 1] - cd[i]
-            exp = cd[i].add_days(int(gap * rng.uniform(0.35, 0.65)))
-            K = rng.choice([90.0, 100.0, 108.0])
-            for kind, model in models():
+                    out.add('pure-le-puttable', f'BondEmbeddedOption[{kind}] puttable {vp["bondwithoption"]!r} < option-free {vp["bondpure"]!r}', **det)
+                stats['BondEmbeddedOption'] += 2
+                stats['samples']['BondEmbeddedOption'] = {'kind': kind, 'shape': pc['shape'], 'maturity': pc['maturity'],
+                                                          'coupon': cpn, 'level': lvl}
+            guarded('BondEmbeddedOption', kind, emb, (mat - vd) / 365.0)
+    # --- bond options: american >= european >= 0, expiry strictly between coupon dates
+    if pc.get('bo'):
+        exp, K = D(pc['bo']['expiry']), pc['bo']['strike']
+        for kind in ('hw', 'bk', 'bdt'):
+            def bo(kind=kind):
+                m_ = model(kind)
                 vals = {}
                 for ot in (OptionTypes.EUROPEAN_CALL, OptionTypes.EUROPEAN_PUT, OptionTypes.AMERICAN_CALL, OptionTypes.AMERICAN_PUT):
-                    vals[ot.name] = float(BondOption(bond, exp, K, ot).value(vd, curve, model))
-                case = dict(base, kind=kind, component='BondOption', expiry=str(exp), strike=K, values=vals)
+                    vals[ot.name] = float(BondOption(bond, exp, K, ot).value(vd, curve, m_))
+                det = dict(product='BondOption', kind=kind, values=vals)
                 for nm in ('CALL', 'PUT'):
                     e, a_ = vals['EUROPEAN_' + nm], vals['AMERICAN_' + nm]
                     if not e >= -1e-9:
-                        ctx.violation(f'BondOption[{kind}] european {nm.lower()} negative: {e!r}', case, clause='european-ge-0')
+                        out.add('european-ge-0', f'BondOption[{kind}] european {nm.lower()} negative: {e!r}', **det)
                     if not a_ >= e - 1e-9:
-                        ctx.violation(f'BondOption[{kind}] american {nm.lower()} {a_!r} < european {e!r}', case,
-                                      clause='american-ge-european')
-                ctx.count('product/BondOption', 4, 4, sample={k: case[k] for k in ('kind', 'shape', 'expiry', 'strike', 'values')})
-        # --- bermudan swaption: bermudan >= european >= 0
-        ex_dt = vd.add_years(rng.choice([1, 2]))
-        sw_mat = ex_dt.add_years(rng.choice([2, 3, 5]))
-        fixed = rng.choice([0.02, 0.04, 0.06])
-        for kind, model in models():
+                        out.add('american-ge-european', f'BondOption[{kind}] american {nm.lower()} {a_!r} < european {e!r}', **det)
+                stats['BondOption'] += 4
+                stats['samples']['BondOption'] = {'kind': kind, 'shape': pc['shape'], 'expiry': pc['bo']['expiry'], 'strike': K,
+                                                  'values': vals}
+            guarded('BondOption', kind, bo, (mat - vd) / 365.0)
+    # --- bermudan swaption: bermudan >= european >= 0
+    ex_dt, sw_mat, fixed = D(pc['sw']['exercise']), D(pc['sw']['maturity']), pc['sw']['fixed']
+    for kind in ('hw', 'bk', 'bdt'):
+        def sw(kind=kind):
+            m_ = model(kind)
             vals = {}
             for lt in (SwapTypes.PAY, SwapTypes.RECEIVE):
                 for ex in (FinExerciseTypes.EUROPEAN, FinExerciseTypes.BERMUDAN):
-                    sw = IborBermudanSwaption(vd, ex_dt, sw_mat, lt, ex, fixed, FrequencyTypes.SEMI_ANNUAL,
+                    s_ = IborBermudanSwaption(vd, ex_dt, sw_mat, lt, ex, fixed, FrequencyTypes.SEMI_ANNUAL,
                                               DayCountTypes.ACT_365F, 1_000_000.0)
-                    vals[f'{lt.name}_{ex.name}'] = float(sw.value(vd, curve, model))
-            case = dict(base, kind=kind, component='IborBermudanSwaption', exercise=str(ex_dt), swap_maturity=str(sw_mat),
-                        fixed=fixed, values=vals)
+                    vals[f'{lt.name}_{ex.name}'] = float(s_.value(vd, curve, m_))
+            det = dict(product='IborBermudanSwaption', kind=kind, values=vals)
             for lt in ('PAY', 'RECEIVE'):
                 e, b = vals[lt + '_EUROPEAN'], vals[lt + '_BERMUDAN']
                 if not e >= -1e-6:
-                    ctx.violation(f'IborBermudanSwaption[{kind}] european {lt} negative: {e!r}', case, clause='european-ge-0')
+                    out.add('european-ge-0', f'IborBermudanSwaption[{kind}] european {lt} negative: {e!r}', **det)
                 if not b >= e - 1e-6:
-                    ctx.violation(f'IborBermudanSwaption[{kind}] bermudan {lt} {b!r} < european {e!r}', case,
-                                  clause='american-ge-european')
-            ctx.count('product/IborBermudanSwaption', 4, 4, sample={k: case[k] for k in ('kind', 'shape', 'exercise', 'fixed', 'values')})
+                    out.add('american-ge-european', f'IborBermudanSwaption[{kind}] bermudan {lt} {b!r} < european {e!r}', **det)
+            stats['IborBermudanSwaption'] += 4
+            stats['samples']['IborBermudanSwaption'] = {'kind': kind, 'shape': pc['shape'], 'exercise': pc['sw']['exercise'],
+                                                        'fixed': fixed, 'values': vals}
+        guarded('IborBermudanSwaption', kind, sw, (sw_mat - vd) / 365.0)
+    return out, stats
+
+
+def product_cases(ctx, rng, np):
+    """BondEmbeddedOption / BondOption / IborBermudanSwaption through their public value() methods."""
+    nprod = 30 if ctx.quick() else 150
+    n_inadm, first_inadm = 0, None
+    for it in range(nprod):
+        pc = gen_product_case(rng)
+        fails, stats = oracle_product(np, pc)
+        report(ctx, 'product', dict(pc, seed_stream='products', iteration=it), fails)
+        for comp in ('BondEmbeddedOption', 'BondOption', 'IborBermudanSwaption'):
+            if stats[comp]:
+                ctx.count('product/' + comp, stats[comp], stats[comp], sample=stats['samples'].get(comp))
+        n_inadm += len(stats['inadmissible'])
+        if stats['inadmissible'] and first_inadm is None:
+            first_inadm = f'{stats["inadmissible"][0]} (shape {pc["shape"]}, iteration {it})'
+    if n_inadm:
+        ctx.notes.append(f'{n_inadm} BK product valuations raised the library\'s FinError on a generated curve with a non-positive '
+                         f'forward rate on the tree grid (outside the lognormal domain: no fitted BK tree exists, so the error is the '
+                         f'correct outcome), e.g. {first_inadm}')
+    ctx.cov.setdefault('histogram', {})['product/bk-inadmissible-curve'] = n_inadm
 
 
 def reuse_cases(ctx, rng, np):
@@ -970,6 +1150,41 @@ def model_op_bond(np, case, A):
     return f'BOND {J} {M} ' + fl(xs), (float(v['bondpure']), float(v['bondwithoption']))
 
 
+def model_op_bond_bdt(np, case, A):
+    """BDTBOND op: the binomial backward kernels (`bdtBondBack`, `bdtCpBack`) of the Lean model on the implementation's
+    own rt array; glue (coupon mapping int(t/dt+0.5), accrued, schedules) mirrored as bdt_tree.py does it."""
+    from financepy.utils.math import accrued_interpolator
+    face = case['face']
+    ct, cf = case['cpn_times'], case['cpn_flows']
+    dt, tt = A['dt'], A['tt']
+    nrows = A['Q'].shape[0]
+    tf = tree_flows_of(np, 'bdt', ct, cf, A, nrows)
+    M = int(ct[-1] / dt + 0.5)
+    mt, ma = [0.0], [0.0]
+    for n_ in range(1, len(tt)):
+        if tf[n_] > 0.0:
+            mt.append(float(tt[n_]))
+            ma.append(float(tf[n_]))
+    mt, ma = np.array(mt), np.array(ma)
+    acc = []
+    for m in range(M + 1):
+        x = accrued_interpolator(float(tt[m]), mt, ma) * face
+        if tf[m] > 0.0:
+            x = tf[m] * face
+        acc.append(x)
+    callv = [face * 1000.0] * (M + 1)
+    putv = [0.0] * (M + 1)
+    for t, pr in zip(case.get('call_t', []), case.get('call_p', [])):
+        callv[int(t / dt + 0.5)] = pr
+    for t, pr in zip(case.get('put_t', []), case.get('put_p', [])):
+        putv[int(t / dt + 0.5)] = pr
+    z = np.exp(-A['rt'][:M, :M + 1] * dt)
+    xs = list(z.ravel()) + [tf[m] * face for m in range(M + 1)] + acc + putv + callv + [(1.0 + tf[M]) * face]
+    v = cp_tree(np, case, A, ct, cf, case.get('call_t', []), case.get('call_p', []), case.get('put_t', []),
+                case.get('put_p', []), face)
+    return f'BDTBOND {M} ' + fl(xs), (float(v['bondpure']), float(v['bondwithoption']))
+
+
 def short(case):
     return json.dumps({k: v for k, v in case.items() if k not in ('times', 'dfs')}, default=str)[:400]
 
@@ -995,6 +1210,7 @@ def run(ctx):
     # ---- trees: arrays vs model, direct oracles
     rng = ctx.rng('trees')
     ops, keep, bops, bkeep = [], [], [], []
+    n_tri = n_bdt = 0
     n_small = 90 if ctx.quick() else 600
     n_big = 45 if ctx.quick() else 450
     hist = {}
@@ -1006,6 +1222,13 @@ def run(ctx):
         try:
             A = build_arrays(np, case)
         except (FinError, ZeroDivisionError) as e:
+            if kind == 'bk':
+                bfails, _ = oracle_build(np, case)
+                known = [f_ for f_ in bfails if f_['finding'] == F_BKNEWTON]
+                if known:                      # a calibration step that has a root but whose Newton search overshoots
+                    report(ctx, 'build', case, known)
+                    hist['bk-newton-overshoot'] = hist.get('bk-newton-overshoot', 0) + 1
+                    continue
             rejected.append((case, f'{type(e).__name__}: {e}'))
             hist['rejected/' + kind] = hist.get('rejected/' + kind, 0) + 1
             continue
@@ -1027,10 +1250,18 @@ def run(ctx):
                 fails, _ = oracle_bond(np, bc, A)
                 report(ctx, 'bond', bc, fails)
                 tie = any(abs((t / A['dt']) % 1.0 - 0.5) < 1e-6 for t in bc['cpn_times'])
-                if small and drivers_ok and kind in ('hw', 'bk') and not tie and len(bops) < 80:
+                if small and drivers_ok and kind in ('hw', 'bk') and not tie and n_tri < 80:
                     op, impl = model_op_bond(np, bc, A)
-                    bops.append(op)
-                    bkeep.append((bc, impl))
+                    n_tri += 1
+                    bops.append(op)                    # bondBack / cpBack (defined on every node)
+                    bkeep.append((bc, impl, 'BOND'))
+                    bops.append('BONDC' + op[4:])      # bondBackC / cpBackC (levels as the routine stores them)
+                    bkeep.append((bc, impl, 'BONDC'))
+                if small and drivers_ok and kind == 'bdt' and not tie and n_bdt < 40:
+                    op, impl = model_op_bond_bdt(np, bc, A)
+                    n_bdt += 1
+                    bops.append(op)                    # bdtBondBack / bdtCpBack
+                    bkeep.append((bc, impl, 'BDTBOND'))
                 ctx.count('bond-oracles/' + kind, 4, 4 if case['sigma'] > 0 else 1)
             except FinError as e:
                 ctx.notes.append(f'{kind} callable_puttable_bond_tree raised FinError on {short(bc)}: {e}')
@@ -1062,18 +1293,19 @@ def run(ctx):
         try:
             ans = C.run_driver('C03', bops)
             nbad = 0
-            for (bc, impl), a_ in zip(bkeep, ans):
+            for (bc, impl, opname), a_ in zip(bkeep, ans):
                 t = a_.split()
                 if len(t) != 2:
-                    ctx.broke(f'correspondence bond kernels: model answered {a_[:60]} on {short(bc)}')
+                    ctx.broke(f'correspondence bond kernels ({opname}): model answered {a_[:60]} on {short(bc)}')
                     continue
                 sc = bc['face'] * (1.0 + sum(bc['cpn_flows']))
                 for nm, iv, mv in (('bondpure', impl[0], b2f(t[0])), ('bondwithoption', impl[1], b2f(t[1]))):
                     if not close(iv, mv, rtol=1e-9, atol=1e-10 * sc):
                         nbad += 1
                         if nbad <= 3:
-                            ctx.broke(f'correspondence bond kernels[{bc["kind"]}]: {nm} model {mv!r} vs implementation {iv!r} on {short(bc)}')
-            ctx.count('bond-kernels-vs-model', 2 * len(bops), 2 * len(bops), sample={'op': bops[0][:80] + ' ...'})
+                            ctx.broke(f'correspondence bond kernels[{bc["kind"]}/{opname}]: {nm} model {mv!r} vs implementation {iv!r} on {short(bc)}')
+            ctx.count('bond-kernels-vs-model', 2 * len(bops), 2 * len(bops),
+                      sample={'op': bops[0][:80] + ' ...', 'BOND': n_tri, 'BONDC': n_tri, 'BDTBOND': n_bdt})
             ctx.cov['components']['bond-kernels-vs-model']['disagree_model'] = nbad
         except C.DriverError as e:
             ctx.broke(f'model driver failed on the bond kernels: {str(e)[:300]}')
@@ -1123,11 +1355,13 @@ def run(ctx):
         'BK alpha and BDT median rate come from root searches: modelled as parameters with the postcondition |f| <= 1e-8, which the row-sum oracle checks on every tree',
         'convergence of HW tree prices to the closed forms is validated numerically only (tolerance 2*S/n + 2e-5*face*(T-t_exp+1))',
         'coupon-to-tree-date mapping and accrued interpolation are glue mirrored in the harness and validated through the PV oracle; option expiries are kept off coupon dates',
+        'Gen/TreesR.lean: the AST cuts of tools/py2lean/registry/trees.py (by exact source text / statement shape) select the statements they name; every other statement of the loops is covered by the element-wise correspondence and the oracles only',
+        'BK on a curve whose df does not strictly decrease on the tree grid is outside the quantifier (bk_no_root_of_df_not_decreasing): a FinError there is accepted',
     ]
     return C.finish(ctx, 'proof',
                     'lake build ' + ' '.join(PROPS) + ' && lake env lean .cache/audit/Audit_C03.lean',
                     C.TRUSTED_BASE_COMMON + ['Spec/C03.lean: Hull moment conditions, "row sums to df", pairing invariance',
-                                             'hand model Model/C03.lean tied to the njit builders by element-wise correspondence'],
+                                             'hand model Model/C03.lean tied to the njit builders by element-wise correspondence and, for formulas and index arithmetic, by theorems equating it with the generated Gen/TreesR.lean'],
                     RULE)
 
 
